@@ -573,12 +573,12 @@ def oracle(ctx):
                              f"defer number {sb['defer_count'] + 1} with cap {before['defer_cap']} left state {sa['state']}",
                              {**where, "before_row": sb, "after_row": sa})
     ctx.stats["t_oracle_s"] = round(time.time() - t0, 1)
-    # deterministic replays of the Coq witnesses
+    # deterministic replays of the Coq refutation witnesses (regressions for the fixed D18 and D8)
     r = run(M.replay_d11(), timeout=60)
     ctx.case(("replay", "d11"), True)
     va = M.View(r["after"])
     if r["choice"] is None and va.eligible_set():
-        fail(SIG_D11, "replay:D11", "witness of C10_update_meta_full_refuted_when_merged_by_min on the real code: after the "
+        fail(SIG_D11, "replay:D11", "witness of C10_update_meta_refuted_for_min_merge on the real code: after the "
              "plan reran and recycled its child c, the grandchild b keeps _safe = 0 although plan and c are SUCCEEDED; "
              "pop_next_job returns None and the phase ends with b PENDING",
              {"replay": "D11", "cached_vs_spec": [[c, M.label_of(r['after'], k), a, b] for c, k, a, b in va.cached_vs_spec()],
@@ -588,7 +588,7 @@ def oracle(ctx):
     v1 = M.View(r["phase1_end"])
     stale = [(c, M.label_of(r["phase1_end"], k), a, b) for c, k, a, b in v1.cached_vs_spec()]
     if stale or r["phase2_choice"] == "P":
-        fail(SIG_D8, "replay:D8", "witness of C10_del_dep_need_flag_refuted_when_sink_only on the real code: after C's rerun "
+        fail(SIG_D8, "replay:D8", "witness of C10_del_dep_need_flag_refuted_for_sink_only_trigger on the real code: after C's rerun "
              "dropped its amended input f.txt, the OPTIONAL producer P keeps _implied_need = DEFAULT with no flag; "
              f"phase 1 ends with {stale}, revert_optional_steps queues {r['to_be_deleted']}, and phase 2 dispatches "
              f"{r['phase2_choice']!r} although nothing needs it",
